@@ -8,7 +8,9 @@ import common as C
 import t_walk as T4
 
 PID = "C09"
-THEOREMS = ["walker_covers_all_children", "rewrite_reaches_every_node", "join_normalize", "normalize_equiv_iff", "normalize_idem"]
+THEOREMS = ["walker_covers_all_children", "rewrite_reaches_every_node", "join_normalize", "normalize_equiv_iff", "normalize_idem",
+            "each_file_evaluated_once", "every_importer_sees_same_value", "import_spelling_irrelevant", "import_cycle_reported",
+            "import_always_terminates", "acyclic_project_builds"]
 
 # syntactic positions an import can sit in: template with {IMP} = an expression evaluating to an int
 POSITIONS = {
